@@ -7,6 +7,12 @@
 pub mod env;
 pub mod sym;
 
+pub mod universe;
+pub mod rt;
+pub mod cases;
+
+pub mod inst;
+pub mod c01;
 pub mod c07;
 pub mod c19;
 pub mod selftest;
